@@ -24,6 +24,8 @@ WRITE_EXEC_PREFIX = ("nervusdb_query::executor::write_", "nervusdb_query::execut
 def is_exec(c):
     return c.name.split("::")[-1] in EXEC_NAMES and "nervusdb_query" in c.name
 
+WITNESSES = ["CommitConsumesTransaction"]
+
 
 def run(ctx):
     F = ctx.facts
